@@ -280,7 +280,7 @@ def conversion_structure(ck, ctx, conv, T, ssx, ssy, key, base_kernels=None):
         if src_kind == 'yuv':
             yv = it.input_yuv
             in_dims = (X.sym(X.USIZE, 'yuv.data.planes[0].cfg.width'), X.sym(X.USIZE, 'yuv.data.planes[0].cfg.height'))
-            touched = [b.name for o, b in s.heap.items() if isinstance(b, Buf) and b.name.startswith('yuv.data') and b.stores]
+            touched = [b.name for o, b in s.heap.items() if isinstance(b, Buf) and b.name.startswith('yuv.data') and b.stores and not b.copy]
             ck.ob(key + '/borrowed', 'PROVED' if not touched else 'REFUTED', 'no store into the borrowed source' if not touched else f"the borrowed source buffer {touched[0]} is written", nontrivial=False)
             check_vec_output(ck, key, ctx, it, s, img, in_dims, ('yuv', yv), ssx, ssy, s.pc)
         else:
@@ -288,7 +288,7 @@ def conversion_structure(ck, ctx, conv, T, ssx, ssy, key, base_kernels=None):
             in_dims = (X.sym(X.USIZE, f'{nm}.width'), X.sym(X.USIZE, f'{nm}.height'))
             if conv.endswith('->Yuv'):
                 if how == 'ref_cfg':
-                    touched = [b.name for o, b in s.heap.items() if isinstance(b, Buf) and b.name.startswith(f'{nm}.data') and b.stores]
+                    touched = [b.name for o, b in s.heap.items() if isinstance(b, Buf) and b.name.startswith(f'{nm}.data') and b.stores and not b.copy]
                     ck.ob(key + '/borrowed', 'PROVED' if not touched else 'REFUTED', 'no store into the borrowed source' if not touched else f"the borrowed source {touched[0]} is written", nontrivial=False)
                 ks = check_yuv_output(ck, key, ctx, it, s, img, in_dims, f'{nm}.data', ssx, ssy, it.rec.loops, s.pc)
                 if ks and len(ks) == 3 and base_kernels is not None:
